@@ -162,7 +162,7 @@ def run_model(res, wd, shards, props, known, tags, prop, replay_path="", module=
     run_tlc_many(runs)
     log("[tlc] %d processes, %.1fs" % (len(runs), time.time() - t0))
     tot_gen = tot_dist = 0
-    counters = [0] * (len(tags) + 2)
+    counters = [0] * (len(tags) + 3)
     for r, shard in zip(runs, shards):
         g, d = r.counts()
         tot_gen += g
@@ -178,6 +178,8 @@ def run_model(res, wd, shards, props, known, tags, prop, replay_path="", module=
                 res.known_hit(k["id"] if k else cid, "%s in layout %s" % (cid, v[1]))
         for line in r.printed("DRIFT"):
             res.drift.append(line[:1500])
+        for line in r.printed("AUX"):
+            res.notes.append("auxiliary invariant of the mapper's internal state does not hold (not a listed property): " + line[:700])
         err = r.other_error()
         if err:
             res.tool_errors.append("%s: %s" % (r.name, err))
@@ -199,6 +201,48 @@ def run_model(res, wd, shards, props, known, tags, prop, replay_path="", module=
     return tot_gen, tot_dist, counters
 
 
+def design_level(res, wd, prop, tier):
+    """MapperSpecMC: the same predicates on the specification itself, at bounds beyond the tabulated ones (4 keys held, 8 keys)."""
+    keys8 = F.KEYS7 + ["E"]
+    jobs = [F.job("spec-empty", [], keys=keys8, maxheld=4)]
+    small = F.small_family("spec", F.anyl, 1, 30, None, 0, 0, ones=False)
+    for j in small[:120]:
+        jobs.append(dict(j, keys=[k for k in j["keys"]] + ["E"], maxheld=4))
+    nproc = PROCS
+    runs = []
+    tags = TAGS[prop]
+    props = [prop, "RA", "AUX"]
+    with open(os.path.join(wd, "MCS.tla"), "w") as f:
+        f.write("---- MODULE MCS ----\nEXTENDS MapperSpecMC\nMCProps == %s\nMCKnown == %s\nMCTags == %s\n====\n" % (tla_set(props), tla_set(known_ids(prop)), tla_seq(tags)))
+    with open(os.path.join(wd, "MCS.cfg"), "w") as f:
+        f.write("SPECIFICATION Spec\nCONSTANTS\n  Props <- MCProps\n  KnownIds <- MCKnown\n  Tags <- MCTags\nINVARIANT NoViolation\nVIEW View\nPOSTCONDITION Stats\nCHECK_DEADLOCK FALSE\n")
+    for i in range(nproc):
+        part = jobs[i::nproc]
+        if not part:
+            continue
+        lp = os.path.join(wd, "spec_layouts_%d.ndjson" % i)
+        write_ndjson(lp, [{"layouts": part}])
+        runs.append(TlcRun(wd, "MCS.tla", "MCS.cfg", env={"LAYOUTS": lp}, name="spec%d" % i, timeout=5400))
+    t0 = time.time()
+    run_tlc_many(runs)
+    gen = dist = 0
+    viols = []
+    for r in runs:
+        g, d = r.counts()
+        gen, dist = gen + g, dist + d
+        err = r.other_error()
+        if err:
+            res.notes.append("design-level run %s: %s" % (r.name, err[:300]))
+        elif r.invariant_violated():
+            st = r.cex_states()
+            viols.append({"layout": st[0]["li"], "history": [x["last"] for x in st[1:]], "viol": st[-1].get("viol")})
+    log("[tlc] MapperSpecMC (design level, 4 keys held, 8 keys): %d layouts, %d states, %d transitions, %.1fs" % (len(jobs), dist, gen, time.time() - t0))
+    if viols:
+        res.notes.append("DESIGN-LEVEL: Mapper.tla itself violates a predicate at the deeper bound (not judged on the implementation here): %s" % json.dumps(viols[:3])[:900])
+    return {"design_level_layouts": len(jobs), "design_level_states": dist, "design_level_transitions": gen, "design_level_violations": len(viols),
+            "design_level_bounds": "Mapper.tla as next-state relation, at most 4 keys held, 8-key alphabets"}
+
+
 def check(prop, tier):
     res = Result(prop, tier, "model_checking")
     try:
@@ -207,7 +251,7 @@ def check(prop, tier):
         jobs = family(prop, tier, exe, wd)
         stats, shards = tabulate(exe, wd, jobs, PROCS)
         tags = TAGS[prop]
-        props = [prop] + (["RA"] if prop in WITH_RA else [])
+        props = [prop] + (["RA"] if prop in WITH_RA else []) + (["AUX"] if prop == "C19" else [])
         gen, dist, counters = run_model(res, wd, shards, props, known_ids(prop), tags, prop,
                                         timeout=1500 if tier == "quick" else 7200)
         ante = dict(zip(tags, counters))
@@ -230,7 +274,7 @@ def check(prop, tier):
             "layouts_through_real_loader": sum(1 for j in jobs if "fancy" in j),
             "impl_table_states": stats["table_states"], "impl_steps_recorded": stats["impl_steps"],
             "truncated_layouts": stats["truncated_layouts"], "layouts_where_impl_panicked": panicked[:10],
-            "conformance_mismatches": drifts,
+            "conformance_mismatches": drifts, "auxiliary_invariant_failures": counters[len(tags) + 2] if prop == "C19" else None,
             "antecedent_transitions": ante,
             "exhaustive": stats["truncated_layouts"] == 0,
             "rule": "every reachable (mapper state, physically held set) of every layout of the family under every press and release "
@@ -238,6 +282,8 @@ def check(prop, tier):
                     "states = TLC 'distinct states' summed over shards; traces_validated_against_impl = transitions on which the recorded "
                     "step result was compared with Mapper!Step; antecedent_transitions = transitions on which each clause's antecedent held",
         }
+        if tier == "thorough" and prop in ("C01", "C02", "C19") and not res.violations and not res.tool_errors:
+            res.coverage.update(design_level(res, wd, prop, tier))
         res.assumptions = ["bounded: at most maxheld (3, some 4) keys physically held, alphabets of 6-8 keys",
                            "the snapshot hook returns the mapper's real fields", "TLC and the CommunityModules JSON reader"]
         if drifts:
@@ -305,7 +351,8 @@ def check_c06(tier, replay_file=None):
             sz = SIZES[tier]
             builtins = [json.loads(l) for l in run_tmv(exe, ["builtins"]).splitlines() if l.strip()]
             jobs = F.builtin_jobs(builtins, thorough) + F.readme_jobs() + [F.job("empty", [])] + \
-                F.small_family("all", F.anyl, sz["per_pair"], sz["n_triples"], seed() if thorough else None, sz["extra_pairs"], sz["extra_triples"])
+                F.small_family("all", F.anyl, sz["per_pair"], sz["n_triples"], seed() if thorough else None, sz["extra_pairs"], sz["extra_triples"]) + \
+                F.small_family("abs", F.has_abs, 1, 100 if not thorough else 800, None, 0, 0, ones=False) + abs_extra(thorough)
             if not thorough:
                 jobs = [j for j in jobs if not j["id"].startswith("builtin-super-dvorak-1")]
             stats, shards = tabulate(exe, wd, jobs, PROCS)
